@@ -105,9 +105,20 @@ class Rule:
         return cls.from_spec(json_like)
 
     def to_json_like(self, *args, **kwargs):
+        cast = None
+        if self.cast:
+            # type names as accepted by `from_spec`, e.g. `{"str": "int"}`:
+            inv_dtype_lookup = {v: k for k, v in CAST_DTYPE_LOOKUP.items()}
+            inv_cast_lookup = {(k[0], v): k[1] for k, v in CAST_LOOKUP.items()}
+            cast = {
+                inv_dtype_lookup[cast_from]: inv_dtype_lookup[
+                    inv_cast_lookup[(cast_from, cast_func)]
+                ]
+                for cast_from, cast_func in self.cast.items()
+            }
         out = {
             "condition": self.condition.to_json_like(),
-            "cast": self.cast,
+            "cast": cast,
             "path": self.path.to_json_like(),
         }
         if "shared_data" in kwargs:
